@@ -51,11 +51,39 @@ func runEngineC9(p *Prog, o *obls) {
 			continue
 		}
 		instrsOf(fn, func(in ssa.Instruction) {
-			c, ok := in.(*ssa.Call)
-			if !ok {
+			var c *ssa.Call
+			held := li.before[in]
+			deferred := false
+			switch x := in.(type) {
+			case *ssa.Call:
+				c = x
+			case *ssa.Defer:
+				// a deferred call runs when the function returns, after the deferred calls registered later and before
+				// those registered earlier: a mutex whose Unlock was deferred *before* this statement is still held
+				// when it runs (`defer mu.Unlock(); …; defer callback(v)` calls back under the mutex)
+				c = &ssa.Call{Call: x.Call}
+				deferred = true
+				still := lockset{}
+				for _, b := range fn.Blocks {
+					for _, in2 := range b.Instrs {
+						d2, ok := in2.(*ssa.Defer)
+						if !ok || d2 == x {
+							continue
+						}
+						op, ok := lockOpOf(&d2.Call)
+						if !ok || op.kind != "Unlock" && op.kind != "RUnlock" {
+							continue
+						}
+						before := b == x.Block() && instrIndex(d2) < instrIndex(x) || b != x.Block() && b.Dominates(x.Block())
+						if v, isHeld := held[op.id]; isHeld && before {
+							still[op.id] = v
+						}
+					}
+				}
+				held = still
+			default:
 				return
 			}
-			held := li.before[in]
 			if len(held) == 0 {
 				return
 			}
@@ -134,7 +162,11 @@ func runEngineC9(p *Prog, o *obls) {
 				confirmed[pair] = reason
 				return
 			}
-			per[fn] = append(per[fn], site{in, fmt.Sprintf("%s is called at %s with %s held", what, p.instrPos(in), strings.Join(hs, ", "))})
+			when := "called"
+			if deferred {
+				when = "deferred (it runs before the Unlock deferred earlier)"
+			}
+			per[fn] = append(per[fn], site{in, fmt.Sprintf("%s is %s at %s with %s held", what, when, p.instrPos(in), strings.Join(hs, ", "))})
 		})
 	}
 	var fns []*ssa.Function
